@@ -86,6 +86,146 @@ def run_with_snapshots(nodes, ctx0):
     return res, snaps
 
 
+def check_accepted(rep, stats, rnd, nodes, insp, pub, given=None):
+    """Accepted by inspection + validation: run with exactly the required keys and with a superset; per-node facts."""
+    given = given or {}
+    required = sorted(insp.required_context_keys)
+    # ---- soundness, exact context and supersets ---------------------------------------------------
+    for variant in range(2):
+        ctx0 = {k: copy.deepcopy(given[k]) if k in given else ("/dev/null" if k == "path" else f"init_{k}") for k in required}     # `path` is a sink target: nothing is written into the cwd
+        if variant == 1:
+            extra = [k for k in pipegen.KEYS if k not in ctx0 and rnd.random() < 0.4]
+            for k in extra:
+                ctx0[k] = rnd.choice([f"extra_{k}", 5, ["z"]])
+            if not extra:
+                continue
+            stats["superset_runs"] += 1
+        res, snaps = run_with_snapshots(nodes, ctx0)
+        if res["outcome"] == "ok":
+            stats["accepted_runs_ok"] += 1
+        elif res["cls"][1] in FLOW_FINE:
+            idx = res["started"] - 1
+            proc = nodes[max(idx, 0)]["processor"].split(":")[0] if res["outcome"] == "runError" else "construct"
+            if res["outcome"] == "runError" and proc in ("rename", "delete"):
+                srck = nodes[idx]["processor"].split(":")[1]
+                if srck in (nodes[idx].get("parameters") or {}):
+                    proc += ":source-key-given-in-node-parameters"
+            rep.add_violation(f"accepted-but-flow-error:{res['cls'][1]}:{proc}",
+                              f"inspection and validation report no error and every required key {required} is supplied, yet the run "
+                              f"fails on flow: {res['exc']}",
+                              dict(pub, required=required, initial_context=ctx0, failing_node=idx, error=res["exc"]))
+        else:
+            stats["accepted_runs_proc_error"] += 1
+        if variant == 1:
+            continue
+        # ---- per-node facts (exact required keys) ----------------------------------------------
+        before = dict(ctx0)
+        writers = {k: None for k in ctx0}       # key -> node (1-based) that last changed its value
+        for idx, after in enumerate(snaps):
+            ni = insp.nodes[idx]
+            stats["facts_nodes_checked"] += 1
+            appeared = sorted(set(after) - set(before))
+            vanished = sorted(set(before) - set(after))
+            want_new = sorted(set(ni.created_keys) - set(before))
+            want_gone = sorted(set(ni.suppressed_keys) & set(before))
+            proc = nodes[idx]["processor"].split(":")[0]
+            if proc == "rename" and len(set(nodes[idx]["processor"].split(":")[1:3])) == 1:
+                proc = "rename-onto-itself"
+            if appeared != want_new:
+                rep.add_violation(f"created-keys-untrue:{proc}",
+                                  f"node {idx + 1} is reported to create {sorted(ni.created_keys)}; keys that appeared when it ran: {appeared}",
+                                  dict(pub, initial_context=ctx0, node=idx + 1, before=sorted(before), after=sorted(after)))
+            if vanished != want_gone:
+                rep.add_violation(f"suppressed-keys-untrue:{proc}",
+                                  f"node {idx + 1} is reported to suppress {sorted(ni.suppressed_keys)}; keys that disappeared when it ran: {vanished}",
+                                  dict(pub, initial_context=ctx0, node=idx + 1, before=sorted(before), after=sorted(after)))
+            # origins of the parameters this node resolved
+            cfg = nodes[idx].get("parameters") or {}
+            for p, origin in ni.context_params.items():
+                if p in cfg or p not in before:
+                    continue
+                stats["origins_checked"] += 1
+                if origin != writers.get(p) and not same_value_since(ctx0, snaps, p, origin, idx):
+                    rep.add_violation(f"origin-untrue:context:{'initial' if origin is None else 'node'}",
+                                      f"node {idx + 1} parameter {p!r}: reported origin {origin}, the value actually comes from "
+                                      f"{'the initial context' if writers.get(p) is None else 'node ' + str(writers.get(p))}",
+                                      dict(pub, initial_context=ctx0, node=idx + 1, parameter=p, reported=origin, actual=writers.get(p)))
+            for p, dv in ni.default_params.items():
+                if p in cfg:
+                    continue
+                stats["origins_checked"] += 1
+                if p in before:
+                    rep.add_violation("origin-untrue:default-overridden-by-context",
+                                      f"node {idx + 1} parameter {p!r} is reported to take its default {dv!r}, but the context holds {p!r} "
+                                      f"(written by {'the initial context' if writers.get(p) is None else 'node ' + str(writers.get(p))}) and overrides it",
+                                      dict(pub, initial_context=ctx0, node=idx + 1, parameter=p))
+            for k in after:
+                if k not in before or before[k] != after[k]:
+                    writers[k] = idx + 1
+            for k in vanished:
+                writers.pop(k, None)
+            before = after
+    return required
+
+
+def swept_pipelines(rep, stats, rnd, n):
+    """Oracle-only stream (the reference analysis has no sweep nodes): pipelines in which a processor is used both inside a
+    derive.parameter_sweep block and plainly — the two uses resolve to different classes with different parameters — are
+    inspected and, when accepted, run with exactly the reported required keys."""
+    from props import c03
+    st = stats.setdefault("swept", {"cases": 0, "accepted": 0, "same_processor_twice": 0, "two_sweeps": 0})
+    for _ in range(n):
+        node, _model, gctx, info = c03.gen_sweep(rnd)
+        proc = node["processor"]
+        nodes = []
+        if info["kind"] != "source":
+            nodes.append({"processor": "TSourceDef"})
+        plain = {"processor": proc}
+        if info["kind"] == "probe":
+            plain["context_key"] = rnd.choice(["p1", "p2"])
+        r = rnd.random()
+        if info["kind"] == "source":
+            # a source used plainly first, then swept (the second replaces the data)
+            if r < 0.6:
+                nodes += [plain, node]
+                st["same_processor_twice"] += 1
+            else:
+                nodes += [node]
+            nodes.append(rnd.choice([{"processor": "TMerge"}, {"processor": "slice:TOp0:TColl"}]))
+        else:
+            if r < 0.35:
+                nodes += [plain, node]
+                st["same_processor_twice"] += 1
+            elif r < 0.7:
+                nodes += [node] + ([{"processor": "TMerge"}] if info["kind"] == "operation" else []) + [plain]
+                st["same_processor_twice"] += 1
+            elif r < 0.85:
+                for _try in range(12):
+                    node2, _m2, gctx2, info2 = c03.gen_sweep(rnd)
+                    if info2["kind"] == info["kind"] == "probe" or info["kind"] != "probe":
+                        break
+                if info2["kind"] == info["kind"] == "probe":
+                    node2 = dict(node2, context_key="res2")
+                    nodes += [node, node2]
+                    gctx = dict(gctx2, **gctx)
+                    st["two_sweeps"] += 1
+                else:
+                    nodes += [node]
+            else:
+                nodes += [node]
+        st["cases"] += 1
+        try:
+            accepted, insp, msg = real_inspect(nodes)
+        except Exception as exc:  # noqa: BLE001
+            rep.add_violation("inspection-crashes:swept", f"inspection of a pipeline with a sweep node raises {exc!r}", {"nodes": nodes})
+            continue
+        if not accepted:
+            continue
+        st["accepted"] += 1
+        stats["accepted"] += 1
+        check_accepted(rep, stats, rnd, nodes, insp, {"nodes": nodes, "stream": "swept"}, given=gctx)
+
+
 def run(tier: str) -> int:
     rep = core.Report(PROP, tier)
     rnd = core.rng(PROP)
@@ -102,7 +242,7 @@ def run(tier: str) -> int:
              "superset_runs": 0, "facts_nodes_checked": 0, "origins_checked": 0, "unknown_param_cases": 0,
              "shapes": {"use_before_create": 0, "delete_then_require": 0, "type_change_across_ctx_node": 0, "create_and_require": 0,
                         "falsy_value_created": 0}}
-    reqs, cases = [], []
+    reqs, cases, oreqs = [], [], []
     for i in range(n_cases):
         nodes, ctx0, meta = pipegen.gen_pipeline(rnd, max_len=max_len, p_misfit=0.06)
         # bias toward the shapes the property names
@@ -135,11 +275,15 @@ def run(tier: str) -> int:
             stats["shapes"]["falsy_value_created"] += 1
         cases.append(nodes)
         reqs.append({"m": "c02.analyse", "id": i, "nodes": [pipegen.model_node(n) for n in nodes], "dtype": first_input_type(nodes)})
+        oreqs.append({"m": "c02.origins", "id": i, "nodes": [pipegen.model_node(n) for n in nodes]})
     model = None
+    omodel = None
     try:
         model = core.Driver().run(reqs)
+        omodel = core.Driver().run(oreqs)
     except Exception as exc:
         rep.add_broken(f"correspondence C02: model driver unavailable ({exc!r})")
+    origin_disagreements = []
     disagreements = []
     samples = []
     for i, nodes in enumerate(cases):
@@ -182,84 +326,35 @@ def run(tier: str) -> int:
             stats["rejected"] += 1
             continue
         stats["accepted"] += 1
-        required = sorted(insp.required_context_keys)
-        # ---- soundness, exact context and supersets ---------------------------------------------------
-        for variant in range(2):
-            ctx0 = {k: ("/dev/null" if k == "path" else f"init_{k}") for k in required}     # `path` is a sink target: nothing is written into the cwd
-            if variant == 1:
-                extra = [k for k in pipegen.KEYS if k not in ctx0 and rnd.random() < 0.4]
-                for k in extra:
-                    ctx0[k] = rnd.choice([f"extra_{k}", 5, ["z"]])
-                if not extra:
-                    continue
-                stats["superset_runs"] += 1
-            res, snaps = run_with_snapshots(nodes, ctx0)
-            if res["outcome"] == "ok":
-                stats["accepted_runs_ok"] += 1
-            elif res["cls"][1] in FLOW_FINE:
-                idx = res["started"] - 1
-                proc = nodes[max(idx, 0)]["processor"].split(":")[0] if res["outcome"] == "runError" else "construct"
-                if res["outcome"] == "runError" and proc in ("rename", "delete"):
-                    srck = nodes[idx]["processor"].split(":")[1]
-                    if srck in (nodes[idx].get("parameters") or {}):
-                        proc += ":source-key-given-in-node-parameters"
-                rep.add_violation(f"accepted-but-flow-error:{res['cls'][1]}:{proc}",
-                                  f"inspection and validation report no error and every required key {required} is supplied, yet the run "
-                                  f"fails on flow: {res['exc']}",
-                                  dict(pub, required=required, initial_context=ctx0, failing_node=idx, error=res["exc"]))
-            else:
-                stats["accepted_runs_proc_error"] += 1
-            if variant == 1:
-                continue
-            # ---- per-node facts (exact required keys) ----------------------------------------------
-            before = dict(ctx0)
-            writers = {k: None for k in ctx0}       # key -> node (1-based) that last changed its value
-            for idx, after in enumerate(snaps):
-                ni = insp.nodes[idx]
-                stats["facts_nodes_checked"] += 1
-                appeared = sorted(set(after) - set(before))
-                vanished = sorted(set(before) - set(after))
-                want_new = sorted(set(ni.created_keys) - set(before))
-                want_gone = sorted(set(ni.suppressed_keys) & set(before))
-                proc = nodes[idx]["processor"].split(":")[0]
-                if proc == "rename" and len(set(nodes[idx]["processor"].split(":")[1:3])) == 1:
-                    proc = "rename-onto-itself"
-                if appeared != want_new:
-                    rep.add_violation(f"created-keys-untrue:{proc}",
-                                      f"node {idx + 1} is reported to create {sorted(ni.created_keys)}; keys that appeared when it ran: {appeared}",
-                                      dict(pub, initial_context=ctx0, node=idx + 1, before=sorted(before), after=sorted(after)))
-                if vanished != want_gone:
-                    rep.add_violation(f"suppressed-keys-untrue:{proc}",
-                                      f"node {idx + 1} is reported to suppress {sorted(ni.suppressed_keys)}; keys that disappeared when it ran: {vanished}",
-                                      dict(pub, initial_context=ctx0, node=idx + 1, before=sorted(before), after=sorted(after)))
-                # origins of the parameters this node resolved
+        # ---- correspondence of the reported origins with the model's one-pass origin analysis (theorems origin_*_true) ----
+        if omodel is not None and "ok" in omodel[i]:
+            for idx, (ni, row) in enumerate(zip(insp.nodes, omodel[i]["ok"])):
                 cfg = nodes[idx].get("parameters") or {}
-                for p, origin in ni.context_params.items():
-                    if p in cfg or p not in before:
-                        continue
-                    stats["origins_checked"] += 1
-                    if origin != writers.get(p) and not same_value_since(ctx0, snaps, p, origin, idx):
-                        rep.add_violation(f"origin-untrue:context:{'initial' if origin is None else 'node'}",
-                                          f"node {idx + 1} parameter {p!r}: reported origin {origin}, the value actually comes from "
-                                          f"{'the initial context' if writers.get(p) is None else 'node ' + str(writers.get(p))}",
-                                          dict(pub, initial_context=ctx0, node=idx + 1, parameter=p, reported=origin, actual=writers.get(p)))
-                for p, dv in ni.default_params.items():
-                    if p in cfg:
-                        continue
-                    stats["origins_checked"] += 1
-                    if p in before:
-                        rep.add_violation("origin-untrue:default-overridden-by-context",
-                                          f"node {idx + 1} parameter {p!r} is reported to take its default {dv!r}, but the context holds {p!r} "
-                                          f"(written by {'the initial context' if writers.get(p) is None else 'node ' + str(writers.get(p))}) and overrides it",
-                                          dict(pub, initial_context=ctx0, node=idx + 1, parameter=p))
-                for k in after:
-                    if k not in before or before[k] != after[k]:
-                        writers[k] = idx + 1
-                for k in vanished:
-                    writers.pop(k, None)
-                before = after
+                reported = {}
+                for name, o in ni.context_params.items():
+                    reported[name] = ["initial"] if o is None else ["node", o - 1]
+                for name in ni.default_params:
+                    reported[name] = ["default"]
+                for name in cfg:
+                    reported[name] = ["config"]
+                want = {k: v for k, v in row}
+                stats["origin_rows_compared"] = stats.get("origin_rows_compared", 0) + 1
+                for v in want.values():
+                    stats.setdefault("origin_kinds", {}).setdefault(v[0], 0)
+                    stats["origin_kinds"][v[0]] += 1
+                if reported != want:
+                    origin_disagreements.append({"nodes": nodes, "node": idx, "reported": reported, "model": want})
+        elif omodel is not None:
+            rep.add_broken(f"correspondence C02: driver error {omodel[i].get('err')}")
+            omodel = None
+        required = check_accepted(rep, stats, rnd, nodes, insp, pub)
         if len(samples) < 4 and i % 251 == 0:
             samples.append({"nodes": nodes, "required": required})
+    swept_pipelines(rep, stats, rnd, 150 if tier == "quick" else 1500)
+    if origin_disagreements:
+        rep.add_broken(f"correspondence C02: reported parameter origins and the model's origin analysis differ on {len(origin_disagreements)} nodes, "
+                       "first " + json.dumps(origin_disagreements[0], default=str)[:700])
+        rep.coverage["first_origin_disagreements"] = origin_disagreements[:5]
     if disagreements:
         rep.add_broken(f"correspondence C02: real inspection and the reference analysis differ on {len(disagreements)} pipelines, first "
                        + json.dumps(disagreements[0], default=str)[:700])
